@@ -425,7 +425,7 @@ func (f *PartialFamily) Step(n *Node, op Op) StepResult {
 // [add N remembering all | even slots | {0, N-1} | none][delete S, add k remembering all]
 // [delete / verify-remember / prune one leaf], S = every subset of size <= 2 plus every subset of the
 // window of slots 2..9; the full C09 oracle after every step.
-func partialMedium(c *Ctx) {
+func partialMedium(c *Ctx, collect ...string) {
 	Ns := []int{12}
 	trs := []uint8{0, 63}
 	if c.Thorough() {
@@ -541,6 +541,9 @@ func partialMedium(c *Ctx) {
 	var steps, evals int64
 	ok := parallelFor(c, len(jobs), func(i int) {
 		fam := &PartialFamily{Nmax: 64, TR: jobs[i].tr, UndoBud: 1, Prop: "C09"}
+		if len(collect) > 0 {
+			fam.Collect = collect[0]
+		}
 		n, _ := fam.Root()
 		// only the last two steps are new with respect to the shared prefix; Step re-checks each
 		for _, op := range jobs[i].hist {
